@@ -569,6 +569,7 @@ Omitted for clash with regular expression \b.
 
 		case HAWK_T('f'):
 			c = HAWK_T('\f');
+			break;
 		case HAWK_T('n'):
 			c = HAWK_T('\n');
 			break;
